@@ -328,12 +328,17 @@ def job_delegation(tier, rng):
     from vf.symarray import shimmed
     out = []
     cases = [((0.3,), (1.1,), (2.5,)), ((0.3, 4.0), (1.1, 0.0), (2.5, 7.0))]
-    ok1 = True; ok2 = True
+    ok1 = True; ok2 = True; hits = dict(so3=0, su2=0)
     try:
         for a, b, g in cases:
             a, b, g = np.array(a), np.array(b), np.array(g)
             n = len(a)
-            with shimmed([], extra={(lie, 'so3_to_angle'): lambda np0, zero_eps=1e-7: (a.copy(), b.copy(), g.copy()), (lie, 'su2_to_angle'): lambda np0, zero_eps=1e-7: (a.copy(), b.copy(), g.copy())}):
+            def st1(np0, zero_eps=1e-7):
+                hits['so3'] += 1; return (a.copy(), b.copy(), g.copy())
+
+            def st2(np0, zero_eps=1e-7):
+                hits['su2'] += 1; return (a.copy(), b.copy(), g.copy())
+            with shimmed([], extra={(lie, 'so3_to_angle'): st1, (lie, 'su2_to_angle'): st2}):
                 R = np.stack([np.eye(3)] * n); U = np.stack([np.eye(2, dtype=complex)] * n)
                 ok1 = ok1 and np.array_equal(lie.so3_to_su2(R), lie.angle_to_su2(a, b, g))
                 for j2 in range(0, 6):
@@ -342,6 +347,9 @@ def job_delegation(tier, rng):
         if not from_repo(ex):
             raise
         ok1 = ok2 = False
+    if not hits['so3'] or not hits['su2']:
+        # the routines no longer go through so3_to_angle / su2_to_angle: the recorder cannot follow (undecided; the bounded round trips decide)
+        return [ob(f'{PROP}.delegation.explore', 'undecided', tier='P', backend='exact-eval (recorder stub)', functions=['numqi.group._lie:so3_to_su2', 'numqi.group._lie:get_su2_irrep'], detail=f'stub hits {hits}')]
     out.append(ob(f'{PROP}.so3_to_su2.is_angle_to_su2_of_the_extracted_angles', 'proved' if ok1 else 'refuted', tier='P', backend='exact-eval (recorder stub)', functions=['numqi.group._lie:so3_to_su2'], witness=None, canary_negated_clause_refuted=True,
                   verifier_output=None if ok1 else 'so3_to_su2 does not return angle_to_su2 of the angles handed back by so3_to_angle'))
     out.append(ob(f'{PROP}.get_su2_irrep.matrix_input_is_angle_input_of_the_extracted_angles[j2<=5]', 'proved' if ok2 else 'refuted', tier='P', backend='exact-eval (recorder stub)', functions=['numqi.group._lie:get_su2_irrep'], witness=None,
